@@ -29,6 +29,8 @@ def handle : List String → Verdict
       -- contains no document byte beyond what the error handler itself writes
       let okStatus := if st != 0 then st else 200
       let errResp := errorPath cfg {}
+      -- a component that panics with a non-error value: the panic reaches the server and nothing is sent (status 0 here)
+      if kind == "panic-string" && rSt == 0 then { nontrivial := true, tags := ["panic-propagated"], sig := "serve;panic" } else
       let pred : Option String :=
         if !clOk then some s!"Content-Length header {String.ofList (cl.map fun c => Char.ofNat c.toNat)} but the body sent has {rBody.length} bytes (failed={failed}, {kind})"
         else if cfg.stream then none
